@@ -1,5 +1,5 @@
 #!/usr/bin/env python3
-"""Markdown table of the round-4/5 seeded changes (from seeded/*/meta.json) for DESIGN.md §10b."""
+"""Markdown table of the seeded changes of rounds 4 onwards (from seeded/*/meta.json) for DESIGN.md §10b."""
 import glob, json, os, re
 HERE = os.path.dirname(os.path.dirname(os.path.abspath(__file__)))
 rows = []
@@ -16,5 +16,22 @@ for r in rows:
 first = [r[3] for r in rows]
 fin = [r[4] for r in rows]
 def cnt(xs, pat): return sum(1 for x in xs if x.startswith(pat))
+import collections
+byround = collections.OrderedDict()
+for p in sorted(glob.glob(os.path.join(HERE, 'seeded', '*', 'meta.json'))):
+    m = json.load(open(p))
+    mm = re.search(r'round (\d+)', str(m.get('produced_by', '')))
+    if not mm:
+        continue
+    cr = m.get('check_result') if isinstance(m.get('check_result'), dict) else {}
+    d = byround.setdefault(int(mm.group(1)), collections.Counter())
+    d['n'] += 1
+    d['first:' + str(cr.get('first_run', '?')).split(' (')[0]] += 1
+    d['final:' + str(cr.get('final', 'pending')).split(' (')[0]] += 1
+print('\n| round | seeds | first run: with input / no-input / missed | after strengthening: with input / no-input / missed |')
+print('|---|---|---|---|')
+for r in sorted(byround):
+    d = byround[r]
+    print(f"| {r} | {d['n']} | {d['first:CAUGHT']} / {d['first:CAUGHT-NOINPUT']} / {d['first:MISSED']} | {d['final:CAUGHT']} / {d['final:CAUGHT-NOINPUT']} / {d['final:MISSED']} |")
 print(f'\n{len(rows)} seeds. First run: {cnt(first,"CAUGHT (")} caught with a concrete input, {cnt(first,"CAUGHT-NOINPUT")} only as no-failing-input-found, '
       f'{cnt(first,"MISSED")} missed. After strengthening: {cnt(fin,"CAUGHT (")} with input, {cnt(fin,"CAUGHT-NOINPUT")} no-input, {cnt(fin,"MISSED")} missed, {cnt(fin,"pending")} pending.')
